@@ -569,6 +569,44 @@ def normalise(fn, world=None, modname=None, cls=None, primitives=(),
     return fn
 
 
+def enumerate_index_to_zip(fn):
+    """`for i, v in enumerate(B): a = A[i]; REST` (i not used in REST, not
+    stored to) pairs element i of A with element i of B, which is what
+    `for a, v in zip(A, B): REST` says.  The two differ only when B is the
+    longer one (IndexError instead of stopping); the rules that read the
+    pairing check the length guard separately.  Returns the number of loops
+    rewritten (fn is changed in place: pass a copy)."""
+    n_done = 0
+    for n in ast.walk(fn):
+        if not (isinstance(n, ast.For) and isinstance(n.iter, ast.Call) and
+                isinstance(n.iter.func, ast.Name) and
+                n.iter.func.id == "enumerate" and len(n.iter.args) == 1 and
+                not n.iter.keywords and isinstance(n.target, ast.Tuple) and
+                len(n.target.elts) == 2 and all(
+                    isinstance(x, ast.Name) for x in n.target.elts) and
+                n.body):
+            continue
+        i, v = n.target.elts[0].id, n.target.elts[1]
+        s0 = n.body[0]
+        if not (isinstance(s0, ast.Assign) and len(s0.targets) == 1 and
+                isinstance(s0.targets[0], ast.Name) and isinstance(
+                    s0.value, ast.Subscript) and isinstance(
+                        s0.value.slice, ast.Name) and
+                s0.value.slice.id == i and _pure(s0.value.value)):
+            continue
+        if any(isinstance(x, ast.Name) and x.id == i
+               for st in n.body[1:] for x in ast.walk(st)):
+            continue
+        n.target = ast.Tuple([s0.targets[0], v], ast.Store())
+        n.iter = ast.Call(ast.Name("zip", ast.Load()),
+                          [s0.value.value, n.iter.args[0]], [])
+        n.body = n.body[1:] or [ast.Pass()]
+        n_done += 1
+    if n_done:
+        ast.fix_missing_locations(fn)
+    return n_done
+
+
 def loop_to_tailcall(fn):
     """A function whose body is `while True: BODY` (no break / continue),
     where no local other than the parameters is carried from one iteration
